@@ -25,6 +25,8 @@ Conv == Mk(<<D("I", <<"W">>), D("F", <<"S">>), D("O", <<"Q">>)>>,
            << [out |-> Acc("O", <<"q">>), terms |-> << <<Acc("I", <<"q + s">>), Acc("F", <<"s">>)>> >>] >>)
 Conv2 == Mk(<<D("I", <<"P", "W">>), D("F", <<"S">>), D("O", <<"P", "Q">>)>>,
             << [out |-> Acc("O", <<"p", "q">>), terms |-> << <<Acc("I", <<"p", "q + s">>), Acc("F", <<"s">>)>> >>] >>)
+Four == Mk(<<D("A", <<"J", "K", "M", "N">>), D("Z", <<"M">>)>>,
+           << [out |-> Acc("Z", <<"m">>), terms |-> << <<Acc("A", <<"j", "k", "m", "n">>)>> >>] >>)
 Copy3 == Mk(<<D("A", <<"K", "M", "N">>), D("Z", <<"K", "M", "N">>)>>,
             << [out |-> Acc("Z", <<"k", "m", "n">>), terms |-> << <<Acc("A", <<"k", "m", "n">>)>> >>] >>)
 Cascade == Mk(<<D("A", <<"K", "M">>), D("B", <<"K", "N">>), D("T", <<"M", "N">>), D("Z", <<"M">>)>>,
@@ -47,7 +49,7 @@ SetFac(b, e, t, f, a) == [b EXCEPT !.exprs[e].terms[t][f] = a]
 \* 1. duplicate rank in a declaration: every tensor, every ordered pair of positions
 DupRank == UNION {UNION {{Inst("duplicate rank in a declaration", <<b.decl[t].name, pq[1], pq[2]>>,
                                 [b EXCEPT !.decl[t].ranks[pq[2]] = b.decl[t].ranks[pq[1]]]) : pq \in Pairs(Len(b.decl[t].ranks))}
-                         : t \in 1..Len(b.decl)} : b \in {Gemm, Three, Copy3}}
+                         : t \in 1..Len(b.decl)} : b \in {Gemm, Three, Copy3, Four}}
 \* 2. undeclared tensor: every factor position (and the output)
 Undeclared == UNION {{Inst("undeclared tensor in an Einsum", <<"factor", p[1], p[2]>>,
                            SetFac(b, 1, p[1], p[2], Acc("Q9", b.exprs[1].terms[p[1]][p[2]].idx))) : p \in FacPos(b, 1)}
@@ -57,6 +59,8 @@ Undeclared == UNION {{Inst("undeclared tensor in an Einsum", <<"factor", p[1], p
 Repeated == UNION {{Inst("repeated tensor in an Einsum", <<p, q>>, SetFac(b, 1, q[1], q[2], b.exprs[1].terms[p[1]][p[2]])) :
                       p \in FacPos(b, 1), q \in FacPos(b, 1)} \ {Inst("repeated tensor in an Einsum", <<p, p>>, b) : p \in FacPos(b, 1)}
                   : b \in {Gemm, Three, Sum3}}
+            \cup UNION {{Inst("repeated tensor in an Einsum", <<p, <<0, 0>>>>, SetFac(b, 1, p[1], p[2], b.exprs[1].out)) : p \in FacPos(b, 1)}
+                        : b \in {Sum3, [Gemm EXCEPT !.decl[3].ranks = <<"K", "M">>, !.exprs[1].out.idx = <<"k", "m">>]}}
 \* 4. terms ranging over different rank sets: every term of a sum gets an extra variable / loses one
 TermRanks == UNION {{Inst("terms ranging over different rank sets", <<"extra variable in term", t>>,
                           [b EXCEPT !.exprs[1].terms[t][1].idx = Append(@, "x"), !.decl[t].ranks = Append(@, "X")]) : t \in 1..Len(b.exprs[1].terms)}
@@ -88,17 +92,26 @@ FlattenFlat == {Inst("flatten() on already flattened ranks", <<rs>>, WithPart(Co
 UO == "uniform_occupancy(A.2)"
 NwayAfterOcc == {Inst("n-way split after an occupancy split", <<r, ds>>, WithPart(Gemm, "Z", <<Ent(<<r>>, ds)>>)) :
                     r \in {"K", "M"}, ds \in {<<UO, "nway_shape(2)">>, <<"uniform_shape(4)", UO, "nway_shape(2)">>, <<UO, UO, "nway_shape(2)">>,
-                                               <<UO, "nway_shape(2)", UO>>, <<"nway_shape(2)", UO, "nway_shape(2)">>}}
+                                               <<UO, "nway_shape(2)", UO>>, <<"nway_shape(2)", UO, "nway_shape(2)">>,
+                                               <<"uniform_occupancy(A.4)", UO, "nway_shape(2)">>, <<"uniform_shape(8)", "uniform_shape(4)", UO, "nway_shape(2)">>,
+                                               \* not immediately after the occupancy split
+                                               <<"uniform_occupancy(A.6)", "uniform_shape(4)", "nway_shape(2)">>, <<UO, "uniform_shape(4)", "uniform_shape(2)", "nway_shape(2)">>,
+                                               <<"uniform_shape(8)", UO, "uniform_shape(2)", "nway_shape(2)">>}}
 \* 11. a shape split after flattening
 ShapeAfterFlatten == {Inst("a shape split after flattening", <<ds>>, WithPart(Gemm, "Z", <<Ent(<<"K", "M">>, <<"flatten()">>), Ent(<<"KM">>, ds)>>)) :
                          ds \in {<<"uniform_shape(2)">>, <<"nway_shape(2)">>, <<"uniform_shape(4)", "uniform_occupancy(A.2)">>, <<"nway_shape(2)", "uniform_occupancy(A.2)">>}}
 \* 12. a non-flatten directive on a rank tuple: 2- and 3-tuples x directive kinds
 NonFlattenTuple == {Inst("a non-flatten directive on a rank tuple", <<rs, d>>, WithPart(b, "Z", <<Ent(rs, <<d>>)>>)) :
                        b \in {Copy3}, rs \in {<<"K", "M">>, <<"M", "N">>, <<"K", "M", "N">>}, d \in {"uniform_shape(2)", "nway_shape(2)", "uniform_occupancy(A.2)"}}
+                   \cup {Inst("a non-flatten directive on a rank tuple", <<ds, "two directives">>, WithPart(Copy3, "Z", <<Ent(<<"K", "M">>, ds)>>)) :
+                       ds \in {<<"uniform_occupancy(A.2)", "uniform_shape(2)">>, <<"uniform_shape(4)", "uniform_shape(2)">>, <<"nway_shape(2)", "uniform_occupancy(A.2)">>}}
 \* 13. a loop order that projects into the output: every loop order over the input's own rank when the output is driven
 ProjectOut == {Inst("a loop order that projects into the output", <<lo>>, WithLo(Conv, "O", lo)) : lo \in {<<"W", "S">>, <<"S", "W">>}}
          \cup {Inst("a loop order that projects into the output", <<lo>>, WithLo(Conv2, "O", lo)) :
                   lo \in {<<"P", "W", "S">>, <<"W", "P", "S">>, <<"S", "P", "W">>, <<"P", "S", "W">>}}
+         \cup {Inst("a loop order that projects into the output", <<lo>>,
+                    WithLo(WithPart(Conv, "O", <<Ent(<<"Q">>, <<"uniform_shape(2)">>), Ent(<<"W">>, <<"follow(Q)">>)>>), "O", lo)) :
+                  lo \in {<<"W1", "S", "W0">>, <<"W1", "W0", "S">>, <<"S", "W1", "W0">>}}
 \* 14. a loop order that iterates an output-only flattened rank
 OutOnlyFlat == {Inst("a loop order that iterates an output-only flattened rank", <<b.decl[1].name, lo>>,
                      WithLo(WithPart(b, "Z", <<Ent(<<"K", "M">>, <<"flatten()">>)>>), "Z", lo)) : b \in {OutOnly, OutOnly2}, lo \in {<<"KM">>}}
